@@ -75,6 +75,8 @@ ebbf229 C08 C08.errexit
 63819ac C09 C09.rebuild
 7dfbaf4 C09 C09.rebuild
 50c76da C14 C14.chunkeof
+e4db022 C20 C20.pool
+0b60194 C15 C15.bucket
 LIST
 git -C /repo worktree remove --force $WT
 rm -rf /tmp/fixcheck-ev
